@@ -15,6 +15,8 @@ INFO = {
               "malformed targets = valid rendering + one of 6 trailing characters; uniqueness against 1..2 tags; "
               "command skeletons: all flag combinations; end to end: calendar-free patterns, parts 0..99",
     "outside": "numeric parts > 99 at the gate; --set-version targets that are arbitrary text (only the malformed families above); "
+               "hand-written current versions with the final tag and a tag number ('v2020.9-final8': matches vYYYY.WW[-TAGNUM], is not "
+               "PEP 440 text, compares below every version in pkg_resources' order - no bump and no accepted target produces one); "
                "patterns with glued numeric parts at the gate (their order is C14-L2's subject); click's own option parsing; "
                "calendar patterns end to end (C05 + gate + skeleton compose, DESIGN §4.1)",
     "stubs": ["command skeletons: cli.incr_dispatch and cli._is_valid_version recorded (their contracts are C05 and L1), click.echo captured",
@@ -131,9 +133,29 @@ def e2e_obs(pattern, hi, t):
         yield Ob(f"L4.test_end_to_end[{pattern}; {label}]", "c01.py", "ob", {"pattern": pattern}, timeout=t, source=src, bounds=label)
 
 
+def _final_num_targets_refused():
+    """supporting evidence for the states excluded at the gate (not a deciding step): concrete (final, NUM > 0) targets are refused.
+    The symbolic form of this lemma does not finish (pkg_resources' legacy-version parser on a symbolic string)"""
+    from bumpver import cli
+    n, errs = 0, []
+    for pat, olds, news in (("vYYYY.WW[-TAGNUM]", ["v2020.9", "v2020.9-beta1", "v2020.9-post2"], ["v2021.3-final%d", "v2020.9-final%d"]),
+                            ("vMAJOR.MINOR[.PATCH[-TAG[NUM]]]", ["v1.2", "v1.2.3-rc1", "v0.0.1"], ["v9.9.9-final%d", "v1.2.3-final%d"])):
+        for old in olds:
+            for new in news:
+                for k in range(1, 10):
+                    n += 1
+                    if cli._is_valid_version(pat, old, new % k) is not False:
+                        errs.append(f"{pat}: {old} -> {new % k} accepted")
+    return n, errs[:5]
+
+
+def validations(tier):
+    return [("(final, NUM>0) --set-version targets are refused (concrete table)", _final_num_targets_refused)]
+
+
 def obligations(tier):
     obs = []
-    t = 300 if tier == "quick" else 1500
+    t = 300 if tier == "quick" else 900
     hi = 99
     if tier == "quick":
         obs += list(gate_obs("MAJOR.MINOR", hi, t))
@@ -144,7 +166,7 @@ def obligations(tier):
         obs += list(e2e_obs("vMAJOR.MINOR", 9, t))
     else:
         for pat in THOROUGH_GATE:
-            obs += list(gate_obs(pat, hi, t, all_small=len(grammar.info(pat)["parts"]) > 3))
+            obs += list(gate_obs(pat, hi, t, all_small=len(grammar.info(pat)["parts"]) > 3, quick=pat == "YYYY.MM.PATCH[PYTAGNUM]"))
             obs += list(aux_obs(pat, hi, t))
         for pat in ("vMAJOR.MINOR", "MAJOR.MINOR.PATCH", "MAJOR.MINOR[.PATCH]", "MAJOR.MINOR.PATCH[PYTAGNUM]"):
             obs += list(e2e_obs(pat, hi if pat == "vMAJOR.MINOR" else 9, t))
